@@ -279,6 +279,13 @@ Proof.
   - rewrite Hnq, app_nil_r. auto.
 Qed.
 
+Lemma inv_g_fail cf built s s' : Inv cf s -> g_fail cf built s = Ok s' -> Inv cf s'.
+Proof.
+  intros I H. unfold g_fail in H.
+  destruct (st_g s); inversion H; subst; try exact I.
+  destruct (prebuild cf && built); [now apply inv_reject|exact I].
+Qed.
+
 (** ** audio thread *)
 
 Lemma arena_keys_in ar k : In k (arena_keys ar) <-> present ar k.
@@ -538,4 +545,5 @@ Proof.
   - eapply inv_a_remove; eauto.
   - eapply inv_a_push; eauto.
   - eapply inv_a_add; eauto.
+  - eapply inv_g_fail; eauto.
 Qed.
